@@ -267,6 +267,13 @@ func specLkAfter(kind, lk int) int {
 //@   at call update#5: after ghost $lost = ite(result, $lost+wide(old(state).extra())+wide(n)-wide(state.extra()), $lost)
 //@   modifies c.ptr, $ledger, $lost, $rd, $lk
 
+//@ contract (*Counter).Inc
+//@   requires c.file != nil
+//@   requires $rd == 0 && $lk == 0
+//@   ensures $ledger+$lost == old($ledger)+old($lost)+1
+//@   ensures $rd == 0 && $lk == 0
+//@   modifies c.ptr, $ledger, $lost, $rd, $lk
+
 //@ contract (*Counter).releaseReader
 //@   requires c.file != nil
 //@   requires $rd == 1 && $lk == 0
@@ -455,3 +462,80 @@ func specMapped(m *mappedFile) bool {
 //@   at call cas32#1: assert specPlaceOK(m.hdrLen, limit, len(name)) ==> end > limit && end%32 == 0 && end > specFirst(m.hdrLen, limit)
 //@   at call writeEntryAt#1: assert specPlaceOK(m.hdrLen, limit, len(name)) ==> specFirst(m.hdrLen, limit) <= start && int64(start)+16+int64(len(name)) <= int64(end)
 //@   modifies elems(m.mapping.Data), $minsize
+
+// ---------------------------------------------------------------------------
+// C05: the file object shared by all counters.
+//
+// The mapping published in file.current is either absent or a live mapping
+// returned by openMapped (checked at every Store, assumed at every Load; a
+// published mapping is closed only after it has been replaced, and the close
+// function returned by Open is documented as test-only).
+
+//@ atomic-invariant file.current v: v == nil || specMapped(v)
+
+// Two-state invariants of fields of existing mappedFile objects: a mapping is
+// only ever dropped (close), never replaced, and the header length computed at
+// open time never changes.
+//@ field-constraint mappedFile.mapping: new == old || new == nil
+//@ field-constraint mappedFile.hdrLen: new == old
+
+//@ contract (*file).invalidateCounters
+//@   requires $rd == 0 && $lk == 0
+//@   ensures $rd == 0 && $lk == 0
+//@   loop 1: invariant $rd == 0 && $lk == 0 && c != nil && c.file != nil
+//@   loop 2: invariant $rd == 0 && $lk == 0 && c != nil && c.file != nil
+//@   at call Load#1: after assume result == nil || result.file != nil
+//@   at call Load#2: after assume result != nil && result.file != nil
+//@   at call Load#3: after assume result != nil && result.file != nil
+//@   modifies heap
+
+//@ contract (*file).newCounter1
+//@   modifies heap
+
+//@ contract (*file).rotate1
+//@   requires $rd == 0 && $lk == 0
+//@   modifies heap
+
+//@ contract Open
+//@   requires $rd == 0 && $lk == 0
+//@   allows panic#1: documented API misuse: Open and OpenAndRotate must not both be used in one process
+//@   modifies heap
+
+// ---------------------------------------------------------------------------
+// C15 / C05: stack counters
+
+//@ contract eq
+//@   ensures result <==> len(a) == len(b) && forall i int :: 0 <= i && i < len(a) ==> a[i] == b[i]
+//@   loop 1: invariant -1 <= rangeindex && rangeindex < len(a) && len(a) == len(b)
+//@   loop 1: invariant forall i int :: 0 <= i && i <= rangeindex ==> a[i] == b[i]
+//@   loop 1: decreases len(a)-rangeindex
+//@   modifies nothing
+
+//@ contract cutLastDot
+//@   ensures len(before)+len(after) <= len(x)
+//@   ensures !strings.Contains(x, ".") ==> before == "" && after == x
+//@   modifies nothing
+
+//@ contract IsStackCounter
+//@   ensures result <==> strings.Contains(name, "\n")
+//@   modifies nothing
+
+// DecodeStack is total and the identity on names without a newline.
+//@ contract DecodeStack
+//@   ensures !strings.Contains(ename, "\n") ==> result == ename
+//@   loop 1: invariant -1 <= rangeindex && rangeindex < len(lines)
+//@   loop 1: decreases len(lines)-rangeindex
+//@   modifies nothing
+
+// EncodeStack: every encoded name fits the counter-name limit and is visibly marked when truncated.
+//@ contract EncodeStack
+//@   ensures len(result) <= maxNameLen
+//@   modifies nothing
+
+//@ contract (*StackCounter).Inc
+//@   requires 0 <= c.depth && c.depth <= 1<<20
+//@   requires c.file != nil
+//@   requires $rd == 0 && $lk == 0
+//@   loop 1: invariant -1 <= rangeindex && rangeindex < len(c.stacks)
+//@   loop 1: decreases len(c.stacks)-rangeindex
+//@   modifies heap
